@@ -152,6 +152,15 @@ def core_scenarios():
     S.append(("batch_reject_simple", "strict", "A:t:100 EB:t:10,1073741825 A:t:50 R:t R:t R:t"))
     S.append(("batch_flush_fail", "strict", "A:t:100 F:FSYNC:1 EB:t:10,20 A:t:50 R:t R:t O R:t"))
     S.append(("batch_flush_fail_restart", "strict", "A:t:100 F:FSYNC:1 EB:t:10,20 O R:t R:t"))
+    # a batch that already switched blocks while planning fails at its final flush (fault after K good fsyncs)
+    S.append(("batch_span_flush_fail", "strict", "A:t:100 F:FSYNC:s2 EB:t:6291456,6291456,6291456 A:t:50 R:t R:t R:t"))
+    S.append(("batch_span_flush_fail_restart", "strict", "A:t:100 F:FSYNC:s2 EB:t:6291456,6291456,6291456 A:t:50 O R:t R:t R:t"))
+    S.append(("batch_span_flush_fail_s1", "strict", "A:t:100 F:FSYNC:s1 EB:t:6291456,6291456 A:t:50 R:t R:t R:t"))
+    S.append(("batch_span_flush_fail_then_batch", "strict", "A:t:100 F:FSYNC:s3 EB:t:6291456,6291456,6291456,6291456 B:t:6291456,6291456 R:t R:t R:t O R:t"))
+    # a block that was allocated but never written (rejected first append) must not end the recovery of its file (C06, C07)
+    S.append(("empty_block_then_other_topic", "strict", "E:a:1073741825 A:b:10 A:b:20 O R:b R:b"))
+    S.append(("empty_block_read_before", "strict", "E:a:1073741825 A:b:10 R:b A:b:20 O R:b O A:b:5 R:b"))
+    S.append(("empty_block_tail_cursor", "strict", "A:b:10 E:a:1073741825 A:c:10 R:c O A:c:20 R:c R:b O R:c"))
     S.append(("stateless_alo_cursor", "alo3", "A:t:300 A:t:300 A:t:300 A:t:300 A:t:300 A:t:300 R:t S:t:1048576:1:0 P:t R:t"))
     # clean/dirty markers across immediate and delayed clean restarts (C17)
     S.append(("clean_immediate_reopen", "strict", "A:t:10 OI P:t C:t OI P:t D:t OI P:t"))
